@@ -223,8 +223,10 @@ pub fn drive_corpus(corpus: &str, seed: u64, thorough: bool, w: &mut NdWriter) -
       continue;
     }
     langs.insert(util::lang_name(l));
+    // sites whose text has characters outside ASCII (kept literally next to the holes of the pattern)
+    let wide: Vec<N> = sites.iter().filter(|s| !s.text().is_ascii()).cloned().collect();
     for i in 0..per_file_cut {
-      let site = rng.pick(&sites).clone();
+      let site = if i % 5 >= 3 && !wide.is_empty() { rng.pick(&wide).clone() } else { rng.pick(&sites).clone() };
       let p = proj::project(&site, false);
       // (a) the code itself must match itself
       if i % 3 == 0 {
